@@ -9,6 +9,9 @@ import (
 	"strconv"
 	"strings"
 
+	"github.com/orda-io/orda/client/pkg/errors"
+	"github.com/orda-io/orda/client/pkg/orda"
+
 	"verif/h/pt"
 )
 
@@ -846,5 +849,112 @@ func (m *c03Machine) Apply(a pt.Action) *pt.Violation {
 			return viol("C03:pending-seq-gap", "pending operation %d has seq %d after %s", i, op.ID.Seq, a)
 		}
 	}
+	// read calls with invalid arguments, in the state reached: refused with an error, no panic, nothing changes
+	if bad := invalidReads(r); len(bad) > 0 {
+		return viol("C03:invalid-read:"+bad[0].sig, "after %s: %s (and %d more)", a, bad[0].msg, len(bad)-1)
+	}
+	if again := m.pre(); again != after {
+		return viol("C03:invalid-read-changed-state", "after %s the refused read calls changed the replica:\n before %+v\n after  %+v", a, after, again)
+	}
 	return nil
+}
+
+type badRead struct{ sig, msg string }
+
+// invalidReads calls, on the replica as it stands, every read of the public API with arguments that do not address
+// anything (index out of range or negative, a count reaching past the end or not positive, a path through a primitive,
+// past the end of an array or into a missing member, a getter of the wrong container kind): each must return an error -
+// not panic, not hand out a value.
+func invalidReads(r *Replica) []badRead {
+	var bad []badRead
+	try := func(kind, desc string, f func() (interface{}, error)) {
+		defer func() {
+			if p := recover(); p != nil {
+				bad = append(bad, badRead{"panics:" + kind, fmt.Sprintf("%s panicked: %v", desc, p)})
+			}
+		}()
+		got, err := f()
+		if err == nil {
+			bad = append(bad, badRead{"not-refused:" + kind, fmt.Sprintf("%s returned %s and no error", desc, jsonStr(got))})
+		}
+	}
+	isNil := func(e errors.OrdaError) error {
+		if e == nil {
+			return nil
+		}
+		return e
+	}
+	switch {
+	case r.li != nil:
+		n := r.li.Size()
+		for _, pos := range []int{-1, n, n + 3} {
+			pos := pos
+			try("List.Get", fmt.Sprintf("List.Get(%d) on %d elements", pos, n), func() (interface{}, error) { v, e := r.li.Get(pos); return v, isNil(e) })
+			try("List.GetMany", fmt.Sprintf("List.GetMany(%d, 1) on %d elements", pos, n), func() (interface{}, error) { v, e := r.li.GetMany(pos, 1); return v, isNil(e) })
+		}
+		try("List.GetMany", fmt.Sprintf("List.GetMany(0, %d) on %d elements", n+1, n), func() (interface{}, error) { v, e := r.li.GetMany(0, n+1); return v, isNil(e) })
+		try("List.GetMany", "List.GetMany(0, 0)", func() (interface{}, error) { v, e := r.li.GetMany(0, 0); return v, isNil(e) })
+		try("List.GetMany", "List.GetMany(0, -1)", func() (interface{}, error) { v, e := r.li.GetMany(0, -1); return v, isNil(e) })
+	case r.doc != nil:
+		val := func(d orda.Document) interface{} {
+			if d == nil {
+				return nil
+			}
+			return d.GetValue()
+		}
+		var walk func(d orda.Document, path string, pathOK bool, depth int)
+		walk = func(d orda.Document, path string, pathOK bool, depth int) {
+			if d == nil || depth > 12 {
+				return
+			}
+			byPath := func(seg string) {
+				if !pathOK {
+					return
+				}
+				p := path + "/" + seg
+				try("Document.GetByPath", fmt.Sprintf("GetByPath(%q) (%q is %v)", p, path, d.GetTypeOfJSON()), func() (interface{}, error) {
+					x, e := r.doc.GetByPath(p)
+					return val(x), isNil(e)
+				})
+			}
+			switch d.GetTypeOfJSON() {
+			case orda.TypeJSONObject:
+				m, _ := d.GetValue().(map[string]interface{})
+				byPath("no-such-member")
+				byPath("0")
+				try("Document.GetFromArray", fmt.Sprintf("GetFromArray(0) on the object at %q", path), func() (interface{}, error) { x, e := d.GetFromArray(0); return val(x), isNil(e) })
+				try("Document.GetManyFromArray", fmt.Sprintf("GetManyFromArray(0, 1) on the object at %q", path), func() (interface{}, error) { x, e := d.GetManyFromArray(0, 1); return len(x), isNil(e) })
+				for k := range m {
+					if c, err := d.GetFromObject(k); err == nil && c != nil {
+						walk(c, path+"/"+k, pathOK && k != "" && !strings.ContainsAny(k, "/~"), depth+1)
+					}
+				}
+			case orda.TypeJSONArray:
+				a, _ := d.GetValue().([]interface{})
+				n := len(a)
+				for _, pos := range []int{-1, n, n + 3} {
+					pos := pos
+					byPath(strconv.Itoa(pos))
+					try("Document.GetFromArray", fmt.Sprintf("GetFromArray(%d) on the %d elements at %q", pos, n, path), func() (interface{}, error) { x, e := d.GetFromArray(pos); return val(x), isNil(e) })
+					try("Document.GetManyFromArray", fmt.Sprintf("GetManyFromArray(%d, 1) on the %d elements at %q", pos, n, path), func() (interface{}, error) { x, e := d.GetManyFromArray(pos, 1); return len(x), isNil(e) })
+				}
+				byPath("x")
+				try("Document.GetManyFromArray", fmt.Sprintf("GetManyFromArray(0, %d) on the %d elements at %q", n+1, n, path), func() (interface{}, error) { x, e := d.GetManyFromArray(0, n+1); return len(x), isNil(e) })
+				try("Document.GetManyFromArray", fmt.Sprintf("GetManyFromArray(0, 0) at %q", path), func() (interface{}, error) { x, e := d.GetManyFromArray(0, 0); return len(x), isNil(e) })
+				try("Document.GetFromObject", fmt.Sprintf("GetFromObject(\"a\") on the array at %q", path), func() (interface{}, error) { x, e := d.GetFromObject("a"); return val(x), isNil(e) })
+				for i := 0; i < n; i++ {
+					if c, err := d.GetFromArray(i); err == nil && c != nil {
+						walk(c, path+"/"+strconv.Itoa(i), pathOK, depth+1)
+					}
+				}
+			default:
+				byPath("a")
+				byPath("0")
+				try("Document.GetFromObject", fmt.Sprintf("GetFromObject(\"a\") on the primitive at %q", path), func() (interface{}, error) { x, e := d.GetFromObject("a"); return val(x), isNil(e) })
+				try("Document.GetFromArray", fmt.Sprintf("GetFromArray(0) on the primitive at %q", path), func() (interface{}, error) { x, e := d.GetFromArray(0); return val(x), isNil(e) })
+			}
+		}
+		walk(r.doc, "", true, 0)
+	}
+	return bad
 }
